@@ -7,6 +7,8 @@ from vlib.runner import Part, Violation
 
 PROPERTY = "C10"
 LEVEL = "fault_enumeration"
+# parts repeated in a child interpreter started with -O and with warnings turned into errors (vlib/runner.py, MODES)
+MODE_PARTS = {"OW": ['input-error-then-interruption', 'idle-expiry-interruptions', 'reconfigured-at-run-time', 're-entrant-interruptions']}
 RULE = ("C01's systematic sweep and random histories with the fault replaced by an interruption raised from the chosen "
         "socket call: KeyboardInterrupt, SystemExit, or a private BaseException subclass (gevent-Timeout-like). Every "
         "operation x every socket event of a fault-free dry run of it (for sendall: raised before anything was sent "
